@@ -9,13 +9,11 @@ TARGETS = ["NetqasmVerif.Props.C03"]
 M = "NetqasmVerif.Props.C03"
 THEOREMS = [(M, "NQ.C03." + n) for n in [
     "assemble_simulates", "assemble_simulates_run", "assemble_simulates_fault", "assemble_halts",
-    "branch_lands_after_label", "labels_correct", "replaceConstants_preserves",
+    "branch_lands_after_label", "labels_correct", "tpos_skips_label", "replaceConstants_preserves",
     "currentRegisters_covers", "scratch_not_named", "no_drop_dup_reorder", "build_faithful",
     "step_deterministic",
-    "exc_covers", "roles_fit", "branch_positions", "classes_unique", "set_is_set",
-    "F3_old_code_counterexample", "F3_fixed_witness",
-    "macros_tokenwise", "F4_old_code_counterexample", "F4_fixed_witness", "macro_probe_fixed",
-    "nonvacuous_loop",
+    "exc_covers", "roles_fit", "branch_positions", "classes_unique", "macro_probe_fixed",
+    "F3_old_code_counterexample", "F3_fixed_witness", "nonvacuous_loop",
 ]]
 TRANSLATORS = ["instr_table", "asm_tables"]
 LEVEL_TEXT = (
@@ -52,6 +50,8 @@ ASSUMPTIONS = [
     "branches on values: `exec` is an arbitrary function of the evaluated operands and the memory",
     "source programs address branch targets by label (a numeric target has no source-level meaning)",
     "register indices are within the 16 registers of a bank (C16 rejects others at encoding time)",
+    "Template operands make the model's build step raise; the real rot_x/rot_y/rot_z classes accept them "
+    "(pre-compiled subroutines, C06) — not generated",
 ]
 
 CORPUS = [
